@@ -248,7 +248,7 @@ def replay_case(case):
 def main(argv):
     from . import runner
     return runner.run_module_check(PID, "exploration", RULE, worker, replay_case, argv,
-                                   n_modules=(16, 300), n_values=(40, 120),
+                                   n_modules=(16, 200), n_values=(40, 100),
                                    extra_modules=[m for m in gen.catalogue() if m.name in ("CatBig", "CatChoice", "CatOpt")],
                                    assumptions=["reference DER encoder (vf/ref_ber.py) is the value injection path",
                                                 "value generators cover the documented native-type ranges only "
